@@ -7,7 +7,7 @@
 (* One case = one engine, n always-true rules that fire once each (fired flag / no-loop),     *)
 (* a priority pattern; the observation is the sequence of fired rules.                        *)
 EXTENDS Naturals, Sequences, TLC, Json
-CONSTANTS Ns, Pats
+CONSTANTS Ns, Pats, Engines
 VARIABLES done, last
 
 (* priority of the i-th added rule (1-based) among n *)
@@ -27,7 +27,11 @@ Sorted(S, n, pat) == IF S = {} THEN <<>>
 Init == done = FALSE /\ last = [op |-> "init"]
 Fire(e, n, pat) == /\ done' = TRUE
                    /\ last' = [op |-> "fireorder", engine |-> e, n |-> n, prios |-> [i \in 1..n |-> Prio(i, n, pat)], order |-> Sorted(1..n, n, pat)]
-Next == \E e \in {"ul", "typed"}, n \in Ns, pat \in Pats : Fire(e, n, pat)
+(* The same ordering rule governs the forward engine (C02: descending salience, insertion order among equals - engine   *)
+(* "forward": one execute over n no-loop rules) and the knowledge base's listing (C15 - engine "kb": get_rules after n    *)
+(* add_rule calls); they are cases of this module so that LARGE rule bases are covered for them too.                     *)
+Vector == {"ul", "typed"}
+Next == \E e \in Engines, n \in Ns, pat \in Pats : Fire(e, n, pat)
 Spec == Init /\ [][Next]_<<done, last>>
 
 (* sanity of the oracle: the expected order is a permutation, descending in priority, and stable *)
